@@ -6,28 +6,36 @@ Require Import MV.Fn.FnLang.
 Definition fcase : Set := (nat * ablock)%type.
 (* nothing is live after the last statement of the function *)
 Definition failing_fcases (cs : list fcase) : list nat :=
-  map fst (filter (fun c => negb (chk_block (snd c) [])) cs).
+  map fst (filter (fun c => negb (chk_block (snd c) [] [])) cs).
 
 (* which variable breaks which condition: (statement label, variable) pairs, for the report *)
 Definition missing (a b : list var) : list var := filter (fun x => negb (mem x b)) a.
 Definition common (a b : list var) : list var := filter (fun x => mem x b) a.
-Fixpoint why_stmt (st : astmt) (li out : list var) {struct st} : list (nat * nat * var) :=
+Fixpoint why_stmt (st : astmt) (li out X : list var) {struct st} : list (nat * nat * var) :=
   match st with
   | AAtom l us ds => map (fun x => (l, 1, x)) (missing us li ++ missing (minus out ds) li)
   | AIf l us L1 b1 L2 b2 =>
       map (fun x => (l, 1, x)) (missing us li ++ missing (lin b1 out) li ++ missing (lin b2 out) li)
-      ++ map (fun x => (l, 2, x)) (common L1 (lin b1 out) ++ common L1 out ++ common L2 (lin b2 out) ++ common L2 out)
-      ++ why_block b1 out ++ why_block b2 out
+      ++ map (fun x => (l, 2, x)) (common L1 (lin b1 out) ++ common L1 out ++ common L2 (lin b2 out) ++ common L2 out
+                                   ++ (if raises_block b1 then common L1 X else []) ++ (if raises_block b2 then common L2 X else []))
+      ++ why_block b1 out X ++ why_block b2 out X
   | AWhile l us L body =>
       map (fun x => (l, 1, x)) (missing us li ++ missing (lin body li) li ++ missing out li)
-      ++ map (fun x => (l, 2, x)) (common L li) ++ why_block body li
+      ++ map (fun x => (l, 2, x)) (common L li ++ (if raises_block body then common L X else [])) ++ why_block body li X
   | AFor l us tg ext L body =>
       map (fun x => (l, 1, x)) (missing us li ++ missing (minus (lin body li) tg) li ++ missing out li
                                 ++ match ext with Some x => missing [x] li | None => [] end)
-      ++ map (fun x => (l, 2, x)) (common L li) ++ why_block body li
+      ++ map (fun x => (l, 2, x)) (common L li ++ (if raises_block body then common L X else [])) ++ why_block body li X
+  | ARaise l us => map (fun x => (l, 1, x)) (missing us li ++ missing X li)
+  | ATry body hs orelse final =>
+      let Fn := lin final out in let Fx := lin final X in let E := lin orelse Fn in
+      map (fun x => (0, 1, x)) (missing (lin body E) li)
+      ++ why_block final out X ++ why_block final X X ++ why_hs hs Fn Fx ++ why_block orelse Fn Fx ++ why_block body E (hins hs Fn ++ Fx)
   end
-with why_block (b : ablock) (O : list var) {struct b} : list (nat * nat * var) :=
+with why_block (b : ablock) (O X : list var) {struct b} : list (nat * nat * var) :=
   match b with
   | ANil => []
-  | ACons li st r => why_stmt st li (lin r O) ++ why_block r O
-  end.
+  | ACons li st r => why_stmt st li (lin r O) X ++ why_block r O X
+  end
+with why_hs (hs : ahandlers) (Fn Fx : list var) {struct hs} : list (nat * nat * var) :=
+  match hs with AHNil => [] | AHCons b r => why_block b Fn Fx ++ why_hs r Fn Fx end.
